@@ -49,8 +49,10 @@ def run(prop):
 register('C06', [
     'load values are i16 widened to i32 (the i32 overflow of load sums is excluded by this domain)',
 ], [
-    'the leg-scanning loop and selector plumbing of eval_job_insertion_in_route (needs InsertionContext)',
-    'time-dependent routing; reload intervals (>1 marker interval); fractional times; breaks/reserved times',
+    'stochastic leg sampling; eval_job_insertion_in_route reading InsertionContext.solution.unassigned (the end-to-end obligations start at eval_single / eval_multi)',
+    'end to end the goal is ONE real constraint at a time (time windows or capacity); their conjunction is the first-violation-wins lemma (C01 evaluate_with_constraints)',
+    'failure of a multi-task job is not claimed complete (greedy by design: the pickup is judged before the delivery position is known)',
+    'time-dependent routing; reload intervals (>1 marker interval); fractional times; breaks/reserved times; jobs with several tasks AND several places per task',
 ])
 
 register('C09', [
@@ -63,7 +65,8 @@ register('C15', [
     'rayon implements its documented fold/reduce contract (result = reducer applied along some binary tree with identity leaves)',
     'Arc::drop_slow stubbed to a no-op (payload leaked) - drop glue is not the subject',
 ], [
-    'the per-leaf fold step eval_job_insertion_in_route and the work partitioning inside PositionInsertionEvaluator::evaluate_all / fold_reduce (need InsertionContext and rayon): a change that drops items before they reach the reducer is NOT visible to this check',
+    'rosomaxa::utils::{fold_reduce, cartesian_product} are taken at their documented contract (contiguous groups folded from identity, results reduced from identity; all pairs): rayon and these two wrappers are not executed',
+    'evaluate_and_collect_all / parallel_collect (per-job or per-route collection, no reducer)',
     'noise/blink/farthest selectors (randomised by design)',
     'validity of full solver runs under Parallelism::new(p,t)',
 ])
